@@ -146,6 +146,8 @@ class Run(object):
                         self.params[F.fid] = dict(yields=op[4], gc=op[5], raises=op[6], nested=(op[2] == 2))
                         F.lastarg = (op[7], op[3], op[6])
                         F.posted += op[3]
+                        if op[2] >= 5:
+                            self.out.probe('callback_entered_with_the_GIL_already_held')
                         drv.post_call(F, op[7], op[3], op[2] if op[2] != 2 else 0)
                         self.sched.point('posted')
                         if not op[8]:
@@ -267,7 +269,7 @@ class C36(core.Check):
         for _ in range(nops):
             n = rng.weighted([('start', 5), ('call', 14), ('wait', 3), ('exit', 5), ('pycall', 3), ('gc', 2), ('pt', 2)])
             if n == 'call':
-                ops.append(['call', rng.below(100), rng.weighted([(0, 4), (1, 3), (2, 2)]),
+                ops.append(['call', rng.below(100), rng.weighted([(0, 4), (1, 3), (2, 2), (5, 1), (6, 1)]),
                             rng.weighted([(1, 6), (3, 3), (20, 1)]), rng.randint(0, 3),
                             rng.chance(0.12), rng.chance(0.1), rng.randint(1, 1000), rng.chance(0.4)])
             elif n in ('wait', 'exit'):
@@ -360,6 +362,8 @@ class C36(core.Check):
             for j, op in enumerate(ctl[i]):
                 if op[0] == 'call':
                     for pos, val in ((3, 1), (4, 0), (5, False), (6, False), (8, False), (2, 0)):
+                        if pos == 2 and op[2] >= 5:
+                            continue
                         if op[pos] != val:
                             nc = [list(x) for x in ctl]
                             nop = list(op)
